@@ -33,13 +33,17 @@ struct Outcome {
     /// (node_count, edge_count) the export header announces
     header_counts: Option<(u64, u64)>,
     edge_id_hole_crosses_64: bool,
+    /// (node, relationship, hierarchy) records in the whole file vs what the import reported
+    file_records: Option<(usize, usize, usize)>,
+    import_reported: Option<(usize, usize, usize)>,
     node_id_holes: bool,
     diff_hint: String,
 }
 
+/// every line of the file, ALL gzip members (a multi-member file is a valid gzip file)
 fn decode_lines(buf: &[u8]) -> Option<Vec<String>> {
     let mut s = String::new();
-    flate2::read::GzDecoder::new(buf).read_to_string(&mut s).ok()?;
+    flate2::read::MultiGzDecoder::new(buf).read_to_string(&mut s).ok()?;
     Some(s.lines().map(|x| x.to_string()).collect())
 }
 
@@ -72,6 +76,299 @@ fn canon_lines(lines: &[String], src: &Dump) -> Option<String> {
     Some(if out.is_empty() { "-".into() } else { out.join("+") })
 }
 
+fn count_records(lines: &[String]) -> (usize, usize, usize) {
+    let (mut n, mut e, mut h) = (0, 0, 0);
+    for l in lines.iter().skip(1) {
+        if let Ok(v) = serde_json::from_str::<serde_json::Value>(l) {
+            match v.get("t").and_then(|t| t.as_str()) {
+                Some("n") => n += 1,
+                Some("e") => e += 1,
+                Some("h") => h += 1,
+                _ => {}
+            }
+        }
+    }
+    (n, e, h)
+}
+
+// ---------------------------------------------------------------------------------------------
+// size-dependent container / framing behaviour: few entities with LARGE values, or very many
+// small entities.  These graphs are compared **in Rust only** (same comparison: nodes in order
+// with label sets and property maps, relationships as a multiset of (source, target, type,
+// properties), header counts, records-in-file vs records-imported) on 64-bit digests of the
+// canonical value text — the payloads (MiBs) are not handed to the Lean driver.
+// ---------------------------------------------------------------------------------------------
+
+#[derive(Clone, Debug)]
+enum Huge {
+    /// `n` nodes whose `blob` property is a string of the given byte lengths (cycled), `r` relationships
+    Strings { lens: Vec<usize>, rels: usize, seed: u64 },
+    /// `n` nodes each carrying a list of `len` integers and a vector of `len / 4` floats
+    Lists { n: usize, len: usize, rels: usize, seed: u64 },
+    /// many small nodes / relationships (bulk API)
+    Many { nodes: usize, rels: usize, seed: u64 },
+}
+
+fn render_huge(h: &Huge) -> String {
+    match h {
+        Huge::Strings { lens, rels, seed } => format!("huge strings {} {} {}", lens.iter().map(|l| l.to_string()).collect::<Vec<_>>().join(","), rels, seed),
+        Huge::Lists { n, len, rels, seed } => format!("huge lists {} {} {} {}", n, len, rels, seed),
+        Huge::Many { nodes, rels, seed } => format!("huge many {} {} {}", nodes, rels, seed),
+    }
+}
+
+fn parse_huge(s: &str) -> Option<Huge> {
+    let f: Vec<&str> = s.split(' ').collect();
+    match f.as_slice() {
+        ["huge", "strings", lens, rels, seed] => Some(Huge::Strings {
+            lens: lens.split(',').map(|x| x.parse().ok()).collect::<Option<Vec<_>>>()?,
+            rels: rels.parse().ok()?,
+            seed: seed.parse().ok()?,
+        }),
+        ["huge", "lists", n, len, rels, seed] => Some(Huge::Lists { n: n.parse().ok()?, len: len.parse().ok()?, rels: rels.parse().ok()?, seed: seed.parse().ok()? }),
+        ["huge", "many", nodes, rels, seed] => Some(Huge::Many { nodes: nodes.parse().ok()?, rels: rels.parse().ok()?, seed: seed.parse().ok()? }),
+        _ => None,
+    }
+}
+
+/// FNV-1a over a canonical byte feed of a value (type tag, length, content; map keys sorted) —
+/// the same information as the canonical text, without expanding MiBs into hex
+fn feed(h: &mut u64, bytes: &[u8]) {
+    for b in bytes {
+        *h ^= *b as u64;
+        *h = h.wrapping_mul(0x100000001b3);
+    }
+}
+
+fn pv_feed(h: &mut u64, v: &samyama::graph::PropertyValue) {
+    use samyama::graph::PropertyValue as PV;
+    match v {
+        PV::Null => feed(h, b"z"),
+        PV::Boolean(b) => feed(h, if *b { b"b1" } else { b"b0" }),
+        PV::Integer(i) => {
+            feed(h, b"i");
+            feed(h, &i.to_le_bytes())
+        }
+        PV::Float(f) => {
+            feed(h, b"f");
+            feed(h, &f.to_bits().to_le_bytes())
+        }
+        PV::String(s) => {
+            feed(h, b"s");
+            feed(h, &(s.len() as u64).to_le_bytes());
+            feed(h, s.as_bytes())
+        }
+        PV::DateTime(t) => {
+            feed(h, b"t");
+            feed(h, &t.to_le_bytes())
+        }
+        PV::Array(a) => {
+            feed(h, b"a");
+            feed(h, &(a.len() as u64).to_le_bytes());
+            a.iter().for_each(|x| pv_feed(h, x))
+        }
+        PV::Map(m) => {
+            feed(h, b"m");
+            let mut kv: Vec<_> = m.iter().collect();
+            kv.sort_by(|a, b| a.0.as_bytes().cmp(b.0.as_bytes()));
+            feed(h, &(kv.len() as u64).to_le_bytes());
+            for (k, x) in kv {
+                feed(h, &(k.len() as u64).to_le_bytes());
+                feed(h, k.as_bytes());
+                pv_feed(h, x);
+            }
+        }
+        PV::Vector(x) => {
+            feed(h, b"v");
+            feed(h, &(x.len() as u64).to_le_bytes());
+            x.iter().for_each(|c| feed(h, &(*c as f64).to_bits().to_le_bytes()))
+        }
+        PV::Duration { months, days, seconds, nanos } => {
+            feed(h, b"d");
+            feed(h, &months.to_le_bytes());
+            feed(h, &days.to_le_bytes());
+            feed(h, &seconds.to_le_bytes());
+            feed(h, &nanos.to_le_bytes())
+        }
+    }
+}
+
+fn props_digest<'a>(it: impl Iterator<Item = (&'a String, &'a samyama::graph::PropertyValue)>) -> u64 {
+    let mut kv: Vec<_> = it.collect();
+    kv.sort_by(|a, b| a.0.as_bytes().cmp(b.0.as_bytes()));
+    let mut h: u64 = 0xcbf29ce484222325;
+    for (k, v) in kv {
+        feed(&mut h, &(k.len() as u64).to_le_bytes());
+        feed(&mut h, k.as_bytes());
+        pv_feed(&mut h, v);
+    }
+    h
+}
+
+fn fnv(s: &str) -> u64 {
+    let mut h: u64 = 0xcbf29ce484222325;
+    for b in s.as_bytes() {
+        h ^= *b as u64;
+        h = h.wrapping_mul(0x100000001b3);
+    }
+    h
+}
+
+/// deterministic ASCII text of exactly `len` bytes (no JSON escapes, edges are not white space)
+fn pattern(len: usize, seed: u64) -> String {
+    let alphabet = b"abcdefghijklmnopqrstuvwxyz0123456789 ABCDEFGHIJKLMNOPQRSTUVWXYZ_-.,;";
+    let mut x = seed.wrapping_mul(0x9e3779b97f4a7c15) | 1;
+    let mut out = Vec::with_capacity(len);
+    while out.len() < len {
+        x ^= x << 13;
+        x ^= x >> 7;
+        x ^= x << 17;
+        let mut w = x;
+        for _ in 0..8 {
+            if out.len() < len {
+                out.push(alphabet[(w % alphabet.len() as u64) as usize]);
+                w /= alphabet.len() as u64;
+            }
+        }
+    }
+    if len > 0 {
+        out[0] = b'<';
+        out[len - 1] = b'>';
+    }
+    String::from_utf8(out).unwrap()
+}
+
+fn build_huge(h: &Huge) -> GraphStore {
+    use samyama::graph::PropertyValue as PV;
+    let mut g = GraphStore::new();
+    let mut ids = vec![];
+    let (n_rels, seed) = match h {
+        Huge::Strings { lens, rels, seed } => {
+            for (i, len) in lens.iter().enumerate() {
+                let id = if i % 2 == 0 { g.create_node_stub("Doc") } else { g.create_node("Doc") };
+                g.set_column_property(id, "uid", PV::Integer(i as i64));
+                let blob = PV::String(pattern(*len, seed + i as u64));
+                if i % 2 == 0 {
+                    g.set_column_property(id, "blob", blob);
+                } else {
+                    g.set_node_property("default", id, "blob", blob).unwrap();
+                }
+                ids.push(id);
+            }
+            (*rels, *seed)
+        }
+        Huge::Lists { n, len, rels, seed } => {
+            for i in 0..*n {
+                let id = g.create_node_with_labels([samyama::graph::Label::new("L"), samyama::graph::Label::new("M")]);
+                g.set_node_property("default", id, "uid", PV::Integer(i as i64)).unwrap();
+                let list: Vec<PV> = (0..*len).map(|k| PV::Integer((k as i64).wrapping_mul(7919) ^ (*seed as i64 + i as i64))).collect();
+                g.set_node_property("default", id, "list", PV::Array(list)).unwrap();
+                let vecv: Vec<f32> = (0..*len / 4).map(|k| (k as f32) * 0.25 + i as f32).collect();
+                g.set_node_property("default", id, "vec", PV::Vector(vecv)).unwrap();
+                ids.push(id);
+            }
+            (*rels, *seed)
+        }
+        Huge::Many { nodes, rels, seed } => {
+            for i in 0..*nodes {
+                let id = g.create_node_stub(if i % 3 == 0 { "A" } else { "B" });
+                g.set_column_property(id, "uid", PV::Integer(i as i64));
+                g.set_column_property(id, "name", PV::String(pattern(60, seed + i as u64)));
+                ids.push(id);
+            }
+            (*rels, *seed)
+        }
+    };
+    let mut r = Rng::new(seed ^ 0x51ab);
+    for k in 0..n_rels {
+        let (a, b) = (ids[r.usize(ids.len())], ids[r.usize(ids.len())]);
+        match k % 3 {
+            0 => {
+                g.create_edge_stub(a, b, "R").unwrap();
+            }
+            1 => {
+                g.create_edge(a, b, "KNOWS").unwrap();
+            }
+            _ => {
+                let mut pm = samyama::graph::PropertyMap::new();
+                pm.insert("i".into(), PV::Integer(k as i64));
+                g.create_edge_with_properties(a, b, "LINK", pm).unwrap();
+            }
+        }
+    }
+    if matches!(h, Huge::Many { .. }) {
+        g.finish_bulk_load();
+    }
+    g
+}
+
+/// the logical graph as digests: nodes in order (sorted labels + canonical property text), and the
+/// sorted multiset of relationships (source rank, target rank, type, canonical property text)
+fn logical_digest(g: &GraphStore) -> (Vec<u64>, Vec<(usize, usize, String, u64)>) {
+    let d_ids: Vec<u64> = {
+        let mut seen = std::collections::HashSet::new();
+        g.all_nodes().iter().map(|n| n.id.as_u64()).filter(|i| seen.insert(*i)).collect()
+    };
+    let rank: std::collections::HashMap<u64, usize> = d_ids.iter().enumerate().map(|(i, id)| (*id, i)).collect();
+    let mut nodes = vec![];
+    for id in &d_ids {
+        let nid = samyama::graph::NodeId::new(*id);
+        let mut labels: Vec<String> = g.get_node(nid).map(|n| n.labels.iter().map(|l| l.as_str().to_string()).collect()).unwrap_or_default();
+        labels.sort();
+        let props: std::collections::BTreeMap<String, samyama::graph::PropertyValue> = g.node_properties_merged(nid).into_iter().collect();
+        nodes.push(fnv(&labels.join(",")) ^ props_digest(props.iter()).rotate_left(17));
+    }
+    let mut rels = vec![];
+    for id in &d_ids {
+        let nid = samyama::graph::NodeId::new(*id);
+        let mut out = g.frozen_outgoing_neighbors(*id as usize);
+        out.extend_from_slice(g.get_outgoing_neighbor_slice(nid));
+        for (tgt, eid) in out {
+            let ty = g.get_edge_type(eid).map(|t| t.as_str().to_string()).unwrap_or_default();
+            let props = g.get_edge_properties(eid).cloned().unwrap_or_default();
+            rels.push((rank[id], rank.get(&tgt.as_u64()).copied().unwrap_or(usize::MAX), ty, props_digest(props.iter())));
+        }
+    }
+    rels.sort();
+    (nodes, rels)
+}
+
+/// Ok(description) or Err((signature, what))
+fn run_huge(h: &Huge) -> Result<String, (String, String)> {
+    let src = build_huge(h);
+    let (sn, sr) = logical_digest(&src);
+    let mut buf = vec![];
+    export_tenant(&src, &mut buf).map_err(|e| ("huge:export-failed".to_string(), e.to_string()))?;
+    let lines = decode_lines(&buf).ok_or(("huge:file-unreadable".to_string(), "MultiGzDecoder cannot read the export".to_string()))?;
+    let json_bytes: usize = lines.iter().map(|l| l.len() + 1).sum();
+    let file = count_records(&lines);
+    let header: serde_json::Value = serde_json::from_str(&lines[0]).map_err(|e| ("huge:header".to_string(), e.to_string()))?;
+    let (hn, he) = (header["node_count"].as_u64().unwrap_or(0) as usize, header["edge_count"].as_u64().unwrap_or(0) as usize);
+    if hn != sn.len() || he != sr.len() || file.0 != sn.len() || file.1 != sr.len() {
+        return Err(("huge:export-counts".into(), format!("graph has {} nodes / {} relationships; header says {} / {}; the file holds {} / {} records", sn.len(), sr.len(), hn, he, file.0, file.1)));
+    }
+    let mut dst = GraphStore::new();
+    let st = import_tenant(&mut dst, &buf[..]).map_err(|e| ("huge:import-error".to_string(), e.to_string()))?;
+    if st.node_count as usize != file.0 || st.edge_count as usize != file.1 {
+        return Err((
+            "import-did-not-consume-the-file".into(),
+            format!("the file ({} bytes of JSON) holds {} node and {} relationship records; import_tenant returned Ok and reported {} / {}", json_bytes, file.0, file.1, st.node_count, st.edge_count),
+        ));
+    }
+    let (dn, dr) = logical_digest(&dst);
+    if dn.len() != sn.len() || dr.len() != sr.len() {
+        return Err(("huge:entity-count".into(), format!("source {} nodes / {} relationships, imported {} / {}", sn.len(), sr.len(), dn.len(), dr.len())));
+    }
+    if dn != sn {
+        let i = dn.iter().zip(&sn).position(|(a, b)| a != b).unwrap_or(0);
+        return Err(("huge:node-differs".into(), format!("node {} (labels or properties) differs after the round trip", i)));
+    }
+    if dr != sr {
+        return Err(("huge:relationships-differ".into(), "the multisets of relationships differ after the round trip".into()));
+    }
+    Ok(format!("{} nodes, {} relationships, {} bytes of JSON, {} bytes gzip", sn.len(), sr.len(), json_bytes, buf.len()))
+}
+
 fn run_case(ops: &[Op]) -> Outcome {
     let ops_txt = render_ops(ops);
     let r = catch_unwind(AssertUnwindSafe(|| {
@@ -95,6 +392,8 @@ fn run_case(ops: &[Op]) -> Outcome {
             dst_edges: 0,
             header_counts: None,
             edge_id_hole_crosses_64: (src.max_edge_id / 64) as usize > src.n_edges / 64,
+            file_records: None,
+            import_reported: None,
             node_id_holes: src.max_node_id as usize > src.n_nodes,
             diff_hint: String::new(),
         };
@@ -107,6 +406,7 @@ fn run_case(ops: &[Op]) -> Outcome {
         o.header_counts = decoded.as_ref().and_then(|l| l.first()).and_then(|h| serde_json::from_str::<serde_json::Value>(h).ok()).and_then(|h| {
             Some((h.get("node_count")?.as_u64()?, h.get("edge_count")?.as_u64()?))
         });
+        o.file_records = decoded.as_ref().map(|l| count_records(l));
         o.lines = decoded.and_then(|l| canon_lines(&l, &src));
         let mut dst = GraphStore::new();
         match import_tenant(&mut dst, &buf[..]) {
@@ -115,6 +415,7 @@ fn run_case(ops: &[Op]) -> Outcome {
                 o.real = format!("ok {} {}.{}.{}.{}", d.text, st.node_count, st.edge_count, st.merged_count, st.hierarchy_count);
                 o.dst_nodes = d.n_nodes;
                 o.dst_edges = d.n_edges;
+                o.import_reported = Some(((st.node_count + st.merged_count) as usize, st.edge_count as usize, st.hierarchy_count as usize));
                 o.diff_hint = diff_hint(&src, &d);
                 o.dst = Some(d.text);
                 // second generation: an imported store keeps scalars in columns only — export it
@@ -167,6 +468,8 @@ fn run_case(ops: &[Op]) -> Outcome {
                 dst_edges: 0,
                 header_counts: None,
                 edge_id_hole_crosses_64: false,
+                file_records: None,
+                import_reported: None,
                 node_id_holes: false,
                 diff_hint: String::new(),
             }
@@ -284,6 +587,7 @@ fn main() {
 
     let mut progs: Vec<Vec<Op>> = vec![];
     let mut n_corpus = 0;
+    let mut huge: Vec<Huge> = vec![];
     let mut files: Vec<std::path::PathBuf> = vec![];
     if let Some(r) = &args.replay {
         files.push(r.clone());
@@ -294,6 +598,10 @@ fn main() {
     for f in &files {
         for line in std::fs::read_to_string(f).unwrap_or_default().lines() {
             let line = line.trim();
+            if let Some(h) = parse_huge(line) {
+                huge.push(h);
+                continue;
+            }
             if let Some(p) = line.strip_prefix("ops ").and_then(parse_ops) {
                 progs.push(p);
                 n_corpus += 1;
@@ -301,6 +609,20 @@ fn main() {
         }
     }
     rep.count_n("corpus_programs", n_corpus);
+    rep.count_n("corpus_huge_cases", huge.len() as u64);
+    if args.replay.is_none() {
+        // size-dependent container / framing behaviour (compared in Rust on digests, see `run_huge`)
+        let sd = args.seed;
+        // ~9 MiB of JSON in 6 nodes; the 64 KiB / 1 MiB / 4 MiB boundaries; long lists and vectors
+        huge.push(Huge::Strings { lens: vec![1_100_000; 6], rels: 9, seed: sd });
+        huge.push(Huge::Strings { lens: vec![65_535, 65_536, 65_537, 1_048_575, 1_048_576, 1_048_577, 2_300_000, 10], rels: 12, seed: sd + 1 });
+        huge.push(Huge::Lists { n: 3, len: 200_000, rels: 6, seed: sd + 2 });
+        if args.thorough() {
+            huge.push(Huge::Many { nodes: 40_000, rels: 40_000, seed: sd + 3 });
+            huge.push(Huge::Strings { lens: vec![2_000_000, 4_194_303, 4_194_304, 4_194_305, 2_000_000, 64, 8_500_000], rels: 20, seed: sd + 4 });
+            huge.push(Huge::Lists { n: 8, len: 250_000, rels: 16, seed: sd + 5 });
+        }
+    }
 
     if args.replay.is_none() {
         let mut rng = Rng::new(args.seed);
@@ -404,6 +726,19 @@ fn main() {
             "ops {}\nsrc   {}\nimpl  {}\nmodel {}\nspec  {}\nimport_error {:?}",
             o.ops_txt, o.src, o.real, m, s, o.import_err
         );
+        // the import read the whole file: as many records as all gzip members hold
+        if let (Some(f), Some(i)) = (o.file_records, o.import_reported) {
+            if f.0 != i.0 || f.1 != i.1 || f.2 < i.2 {
+                rep.count("spec_violation:import-did-not-consume-the-file");
+                rep.spec_violation(
+                    &known,
+                    "import-did-not-consume-the-file",
+                    &format!("the file holds {:?} (node, relationship, hierarchy) records, import_tenant returned Ok and reported {:?}", f, i),
+                    &body,
+                );
+                continue;
+            }
+        }
         // the header announces what the body holds
         if let (Some((hn, he)), true) = (o.header_counts, s == "ok" && o.import_err.is_none()) {
             if hn as usize != o.src_nodes || he as usize != o.src_edges {
@@ -477,6 +812,29 @@ fn main() {
     if let Some((name, body)) = first_break {
         if rep.spec_violations.is_empty() {
             rep.correspondence_break(&name, "model and implementation differ although the specification holds on every explored case", &body);
+        }
+    }
+    // the huge cases, one at a time (each holds MiBs)
+    for h in &huge {
+        let txt = render_huge(h);
+        let t0 = std::time::Instant::now();
+        let res = catch_unwind(AssertUnwindSafe(|| run_huge(h)));
+        rep.case(&txt, true);
+        rep.count("huge-case(compared in Rust on digests)");
+        match res {
+            Ok(Ok(desc)) => {
+                rep.count(&format!("huge:{}", txt.split(' ').nth(1).unwrap_or("")));
+                if rep.samples.len() < 6 {
+                    rep.sample(json!({"huge": txt, "round_trip": desc, "seconds": t0.elapsed().as_secs_f64()}));
+                }
+            }
+            Ok(Err((sig, what))) => {
+                rep.count(&format!("spec_violation:{}", sig));
+                rep.spec_violation(&known, &sig, &format!("{} (`{}`)", what, txt), &format!("{}\n{}", txt, what));
+            }
+            Err(_) => {
+                rep.spec_violation(&known, "huge:panic", &format!("panic in `{}`", txt), &txt);
+            }
         }
     }
     rep.write(&args.out);
